@@ -29,6 +29,9 @@ func judgeItems(prop string, sc *BatchSc, x *batchExec, br batchRun) (fp, msg st
 		totalWant += m.Attempts
 		totalGot += len(execs)
 		if len(execs) == 0 {
+			if sc.stop() {
+				continue // skipped by stop-on-error: C09's business
+			}
 			return prop + ":item-skipped", fmt.Sprintf("item %d was never processed (continue mode); events %v", i, bevStrings(br.Events))
 		}
 		if len(execs) != m.Attempts {
@@ -55,7 +58,7 @@ func judgeItems(prop string, sc *BatchSc, x *batchExec, br batchRun) (fp, msg st
 				return prop + ":item-fallback-arg", fmt.Sprintf("item %d: fallback did not receive the item Result", i)
 			}
 			last := execs[len(execs)-1]
-			if fb.InErr != last.RetErr {
+			if !sameErr(fb.InErr, last.RetErr) {
 				return prop + ":item-fallback-err", fmt.Sprintf("item %d: fallback received error %q, the item's last attempt returned %q", i, fb.InErr, last.RetErr)
 			}
 			if fb.Seq < last.Seq {
@@ -68,7 +71,7 @@ func judgeItems(prop string, sc *BatchSc, x *batchExec, br batchRun) (fp, msg st
 			}
 		}
 	}
-	if totalGot != totalWant {
+	if totalGot != totalWant && !sc.stop() {
 		return prop + ":total-attempts", fmt.Sprintf("total exec calls %d, sum of per-item model attempts %d", totalGot, totalWant)
 	}
 	return "", ""
@@ -177,6 +180,20 @@ func judgeC07(sc *BatchSc, x *batchExec, br batchRun, fail string) Verdict {
 func checkC07(t *testing.T, sc BatchSc) Verdict {
 	sc.Mode = modeContinue(sc.Mode)
 	sc.PrepErr = 0
+	if sc.Second != nil {
+		// second run of the same node object after a configuration change
+		sec := *sc.Second
+		sec.Mode = modeContinue(sec.Mode)
+		sc.Second = &sec
+		x, eff, br, fail := runBatchTwice(t, &sc)
+		v := judgeC07(eff, x, br, fail)
+		if v.Violation != "" {
+			v.Violation = "second run of the same batch node after reconfiguration: " + v.Violation
+			v.Fingerprint += ":rerun"
+		}
+		v.Classes = append(v.Classes, "reconfigured-rerun")
+		return v
+	}
 	x, br, fail := runBatchCase(t, &sc, nil)
 	return judgeC07(&sc, x, br, fail)
 }
@@ -245,7 +262,7 @@ func TestC07(t *testing.T) {
 		i++
 	})
 	r.exhaustive(fmt.Sprintf("every assignment of per-item scripts (exec ok/fail per attempt for budget+1 attempts, fallback ok/err) for n<=%d items, budget<=2, c in 0..3, with/without fallback, two release orders: %d cases", r.pick(2, 3), n))
-	g := batchGen{MinN: 1, MaxN: 32, MaxC: 8, Modes: []int{0, 1}, MaxBudget: 4, PFail: 450, PResErr: 40, PPreErr: 40, Fb: true, Gated: 1, MaxSched: 120}
+	g := batchGen{MinN: 1, MaxN: 32, MaxC: 8, Modes: []int{0, 1}, MaxBudget: 4, PFail: 450, PResErr: 40, PPreErr: 40, Fb: true, Gated: 1, MaxSched: 120, Rerun: true}
 	rapidPart(r, "rand-gated", r.pick(2000, 30000), g.gen, checkC07)
 	g2 := g
 	g2.Gated = 0
